@@ -261,6 +261,56 @@ fn chk_fault(kind: &str, mode: &str, data: &[u8], args: &[&str]) -> Result<(), S
     }
     Ok(())
 }
+/// fail-stop during lookups: once the stream fails, every lookup of a reader-backed tile fails — the
+/// first one, a retry of the same tile, and lookups of other tiles (incl. ones sharing its bytes)
+fn chk_fault_lookup(mode: &str, data: &[u8]) -> Result<(), String> {
+    let v = spec::parse(data, false).map_err(|e| format!("harness: {e}"))?;
+    let all = spec::all_tiles(&v, 1_000_000)?;
+    let ids: Vec<u64> = all.keys().copied().collect();
+    if ids.is_empty() {
+        return Ok(());
+    }
+    let step = (ids.len() / 12).max(1);
+    for (n, first) in ids.iter().step_by(step).enumerate() {
+        // the tiles looked up after the stream started failing: the same one again, a twin, a neighbour
+        let twin = all.iter().find(|(i, ol)| *i != first && **ol == all[first]).map(|(i, _)| *i);
+        let mut seq = vec![*first, *first];
+        if let Some(t) = twin {
+            seq.push(t);
+        }
+        seq.push(ids[(n * 7 + 1) % ids.len()]);
+        seq.push(*first);
+        // faults starting at the seek or at the read of the first lookup
+        for delay in 0..2usize {
+            if mode == "sync" {
+                let sh = Shared::new(Core::new(data.to_vec(), 0));
+                let mut pm = res(catch_unwind(AssertUnwindSafe(|| PMTiles::from_reader(sh.clone()))), "open")?;
+                let now = sh.0.borrow().ops;
+                sh.0.borrow_mut().fail_from = Some(now + delay);
+                for (j, id) in seq.iter().enumerate() {
+                    match catch_unwind(AssertUnwindSafe(|| pm.get_tile_by_id(*id))) {
+                        Err(_) => return Err(format!("lookup of {id} panicked on a failing stream")),
+                        Ok(Ok(_)) => return Err(format!("lookup #{j} of tile {id} reported success although the stream has been failing since the lookup of tile {first} (fault {delay} operations into it)")),
+                        Ok(Err(_)) => {}
+                    }
+                }
+            } else {
+                let sh = AShared::new(Core::new(data.to_vec(), 0));
+                let mut pm = res(catch_unwind(AssertUnwindSafe(|| block_on(PMTiles::from_async_reader(sh.clone())))), "open")?;
+                let now = sh.0.lock().unwrap().ops;
+                sh.0.lock().unwrap().fail_from = Some(now + delay);
+                for (j, id) in seq.iter().enumerate() {
+                    match catch_unwind(AssertUnwindSafe(|| block_on(pm.get_tile_by_id_async(*id)))) {
+                        Err(_) => return Err(format!("async lookup of {id} panicked on a failing stream")),
+                        Ok(Ok(_)) => return Err(format!("async lookup #{j} of tile {id} reported success although the stream has been failing since the lookup of tile {first} (fault {delay} operations into it)")),
+                        Ok(Err(_)) => {}
+                    }
+                }
+            }
+        }
+    }
+    Ok(())
+}
 fn c0_event_at(c: &Core, k: usize) -> String {
     c.log.get(k).map_or("?".to_string(), |e| format!("{e:?}"))
 }
